@@ -176,7 +176,12 @@ class Ellipsis(Expression):
             return "..."
         n = str(self.inner)
         if isinstance(self.inner, List) and len(self.inner.children) != 1:
-            n = "{" + n + "}"
+            # A list of several expressions under an ellipsis only arises inside brackets ("[[a b]...]": the parser drops the
+            # redundant inner brackets). It is printed with these brackets, such that the printed expression parses to itself.
+            parent = self.parent
+            while parent is not None and not isinstance(parent, Brackets):
+                parent = parent.parent
+            n = "[" + n + "]" if parent is not None else "{" + n + "}"
         return f"{n}..."
 
     def __deepcopy__(self):
